@@ -36,7 +36,9 @@ CONSTANTS
                  \*       order is left to the implementation and checked against `edges`
   InitLeaves     \* sequence of [vec, rg] describing leaves that exist in the initial state
 
-AllOps == {"add", "mul", "sub", "neg", "sq", "clone", "sum", "idx", "stack", "unbind", "gather"}
+AllOps == {"add", "mul", "sub", "neg", "sq", "clone", "sum", "idx", "stack", "unbind", "gather", "vmax"}
+\* vmax: the maximum over all elements of a vector with two different entries (no tie: the derivative is the selection)
+ArgMax(v) == IF v[1] > v[2] THEN 1 ELSE 2
 \* gather: y = x[[i, j]] for the index pair number k (repeated and permuted indices)
 GatherIx(k) == << <<1, 1>>, <<2, 2>>, <<2, 1>> >>[k]
 
@@ -88,6 +90,7 @@ WellShaped(op, c1, c2, k) ==
     [] op \in {"neg", "sq", "clone", "sum"} -> c2 = c1 /\ k = 0
     [] op = "idx"    -> c2 = c1 /\ tape[c1].vec /\ k \in 1..2
     [] op = "gather" -> c2 = c1 /\ tape[c1].vec /\ k \in 1..3
+    [] op = "vmax"   -> c2 = c1 /\ tape[c1].vec /\ k = 0 /\ tape[c1].val[1] # tape[c1].val[2]
     [] op = "unbind" -> c2 = c1 /\ tape[c1].vec /\ k = 0
     [] op = "stack"  -> ~tape[c1].vec /\ ~tape[c2].vec /\ k = 0
     [] OTHER -> FALSE
@@ -110,6 +113,7 @@ OutVal(op, c1, c2, k) ==
     [] op = "sum"   -> IF tape[c1].vec THEN <<tape[c1].val[1] + tape[c1].val[2]>> ELSE <<tape[c1].val[1]>>
     [] op = "idx"   -> <<tape[c1].val[k]>>
     [] op = "gather" -> <<tape[c1].val[GatherIx(k)[1]], tape[c1].val[GatherIx(k)[2]]>>
+    [] op = "vmax"  -> <<tape[c1].val[ArgMax(tape[c1].val)]>>
     [] op = "stack" -> <<tape[c1].val[1], tape[c2].val[1]>>
     [] op = "unbind" -> <<tape[c1].val[k]>>     \* k-th output
 
@@ -152,6 +156,7 @@ Dual(n) ==
          [] nd.op = "sum"   -> IF tape[c1].vec THEN <<DAdd(A[1], A[2])>> ELSE <<A[1]>>
          [] nd.op = "idx"   -> <<A[nd.k]>>
          [] nd.op = "gather" -> <<A[GatherIx(nd.k)[1]], A[GatherIx(nd.k)[2]]>>
+         [] nd.op = "vmax" -> <<A[ArgMax(tape[c1].val)]>>
          [] nd.op = "stack" -> <<A[1], B[1]>>
          [] nd.op = "unbind" -> <<A[nd.k]>>
 
@@ -189,6 +194,7 @@ LocalVJP(n, p, m) ==
        [] nd.op = "idx"   -> [e \in 1..2 |-> IF e = nd.k THEN m[1] ELSE 0]
        \* every position that read element e sends its message back to it: repeated indices ADD
        [] nd.op = "gather" -> [e \in 1..2 |-> (IF GatherIx(nd.k)[1] = e THEN m[1] ELSE 0) + (IF GatherIx(nd.k)[2] = e THEN m[2] ELSE 0)]
+       [] nd.op = "vmax" -> [e \in 1..2 |-> IF e = ArgMax(tape[c].val) THEN m[1] ELSE 0]
        [] nd.op = "stack" -> <<m[p]>>
        [] nd.op = "unbind" -> [e \in 1..2 |-> IF e = nd.k THEN m[1] ELSE 0]
 
